@@ -141,6 +141,9 @@ Definition attr_eq (e : event) (kv : Z * Z) : bool :=
   match zlookup (fst kv) (eattrs e) with Some v => Z.eqb v (snd kv) | None => false end.
 Definition waiter_matches (e : event) (w : waiter) : bool :=
   Z.eqb (ety e) (w_ty w) && forallb (attr_eq e) (w_reqs w).
+(* a waiter whose replay is already pending (resolved or timed out) is skipped *)
+Definition w_pending (w : waiter) : bool :=
+  match w_resolved w with Some _ => true | None => w_timedout w end.
 Definition resolve (e : event) (w : waiter) : waiter :=
   {| w_id := w_id w ; w_ev := w_ev w ; w_ty := w_ty w ; w_reqs := w_reqs w ;
      w_hasreq := w_hasreq w ; w_resolved := Some e ; w_timedout := w_timedout w |}.
@@ -153,7 +156,7 @@ Fixpoint waiter_pass (step : Z) (e : event) (done todo : list waiter) (w : wstat
   match todo with
   | [] => Ok (w, acc, hit)
   | wt :: rest =>
-    if waiter_matches e wt then
+    if negb (w_pending wt) && waiter_matches e wt then
       let wt' := resolve e wt in
       let w1 := set_w w (queue w) (inprogress w) (collected w) (done ++ wt' :: rest) in
       match add_or_enqueue step (blank (w_ev wt)) w1 now with
@@ -163,23 +166,24 @@ Fixpoint waiter_pass (step : Z) (e : event) (done todo : list waiter) (w : wstat
     else waiter_pass step e (done ++ [wt]) rest w now acc hit
   end.
 
-Fixpoint add_waiters (e : event) (ws : list (Z * wstate)) (now : Z)
+Definition target_ok (target : option Z) (n : Z) : bool :=
+  match target with None => true | Some t => Z.eqb t n end.
+
+Fixpoint add_waiters (e : event) (target : option Z) (ws : list (Z * wstate)) (now : Z)
   : res (list (Z * wstate) * list command * list Z) :=
   match ws with
   | [] => Ok ([], [], [])
   | (n, w) :: t =>
-    match waiter_pass n e [] (waiters w) w now [] false with
+    match (if target_ok target n then waiter_pass n e [] (waiters w) w now [] false
+           else Ok (w, [], false)) with
     | Err c => Err c
     | Ok (w', cs, hit) =>
-      match add_waiters e t now with
+      match add_waiters e target t now with
       | Err c => Err c
       | Ok (t', cs', hits) => Ok ((n, w') :: t', cs ++ cs', if hit then n :: hits else hits)
       end
     end
   end.
-
-Definition target_ok (target : option Z) (n : Z) : bool :=
-  match target with None => true | Some t => Z.eqb t n end.
 
 Fixpoint add_routes (a : attempt) (target : option Z) (skip : list Z) (ws : list (Z * wstate)) (now : Z)
   : res (list (Z * wstate) * list command * bool) :=
@@ -203,7 +207,7 @@ Definition with_workers (s : state) (r : bool) (ws : list (Z * wstate)) : state 
 Definition process_add (a : attempt) (target : option Z) (s : state) (now : Z)
   : res (state * list command) :=
   let r := if zmem (ety (a_ev a)) (c_start (cfg s)) then true else running s in
-  match add_waiters (a_ev a) (workers s) now with
+  match add_waiters (a_ev a) target (workers s) now with
   | Err c => Err c
   | Ok (ws1, cs1, hits) =>
     match add_routes a target hits ws1 now with
